@@ -21,6 +21,11 @@ def ctx_stores(fn):
 
 
 def run(F, R, ctx):
+    _run(F, R, ctx)
+    park_loop_rule(F, R)
+
+
+def _run(F, R, ctx):
     R.rule("C15.a", "in every function that publishes its SteelThread pointer into Synchronizer.ctx (store of Some(ptr)), "
                     "every path from the publishing store to the return passes through a store of None (retract)")
     R.rule("C15.c", "raw dereferences of *mut SteelThread occur only in Synchronizer::{call_per_ctx, maybe_call_per_ctx, "
@@ -183,3 +188,24 @@ def run(F, R, ctx):
         R.inst("C15.s", "Synchronizer::%s reaches its own and every registered controller" % nm, ok,
                "Synchronizer::%s no longer calls ThreadStateController::%s on its own state and on each registered thread%s"
                % (nm, ctl, " (and unpark)" if extra else ""), fn.loc(), sample=True)
+
+
+def park_loop_rule(F, R):
+    R.rule("C15.p", "a thread that waits by parking re-tests what it waits for: every call of std::thread::park in the runtime "
+                    "lies on a loop (park returns spuriously, and immediately when the thread holds an unpark token left by an "
+                    "earlier resume) — a stopped thread that treats the first return from park as 'the pause is over' runs "
+                    "on while another thread is inspecting or replacing its stack and the global table")
+    n = 0
+    for name, fn in sorted(F.fns.items()):
+        if not name.startswith("steel::"):
+            continue
+        for i, b in fn.calls():
+            if re.search(r"thread::(functions::)?park(_timeout)?$", b["callee"]):
+                n += 1
+                on_loop = i in fn.reachable_from(fn.succ(i))
+                R.inst("C15.p", "%s / park is inside a re-checking loop" % fn.short(), on_loop,
+                       "%s parks once (line %s) and continues when park returns: park may return at once (stale unpark token "
+                       "from an earlier resume_threads) or spuriously, so the thread leaves its safepoint while the pause flag "
+                       "is still set and executes instructions during a stop-the-world operation" % (fn.short(), b["line"]),
+                       fn.loc(b["line"]), sample=True)
+    R.floor("C15.p", "park sites", n, 3)
